@@ -56,6 +56,8 @@ func c09Pre(pre int) *stun.Message {
 			_ = stun.Fingerprint.AddTo(m)
 		}
 		return m
+	case 14: // a finished authenticated message: MESSAGE-INTEGRITY, then FINGERPRINT
+		return stun.MustBuild(stun.BindingRequest, tid, stun.NewUsername("u"), stun.NewShortTermIntegrity("pw"), stun.Fingerprint)
 	case 7, 8: // struct fields assigned directly and not (yet) written to Raw; 7 carries a FINGERPRINT
 		var m *stun.Message
 		if pre == 7 {
@@ -195,7 +197,7 @@ func c09Setter(name string, n, pre int) (s stun.Setter, accept bool, classOK fun
 	case "OtherAddress":
 		return &stun.OtherAddress{IP: net.IP(bytesOf(n)), Port: 7}, ipOK, badIP, "ErrBadIPLength"
 	case "MessageIntegrity":
-		return stun.MessageIntegrity(bytesOf(n)), pre != 3 && pre != 5 && pre != 6 && pre != 7 && (pre < 9 || pre > 13), func(err error) bool { return errors.Is(err, stun.ErrFingerprintBeforeIntegrity) }, "ErrFingerprintBeforeIntegrity"
+		return stun.MessageIntegrity(bytesOf(n)), pre != 3 && pre != 5 && pre != 6 && pre != 7 && (pre < 9 || pre > 14), func(err error) bool { return errors.Is(err, stun.ErrFingerprintBeforeIntegrity) }, "ErrFingerprintBeforeIntegrity"
 	}
 	panic("c09: unknown setter " + name)
 }
@@ -256,9 +258,11 @@ func c09Check1(k c09Case) (string, string, string) {
 
 var errC09Menu = errors.New("menu setter failure")
 
-// c09Menu: 6 setters, two of which fail.
+// c09Menu: 7 setters; two always fail, MessageIntegrity (6) fails when a FINGERPRINT was applied before it.
 func c09Menu(i int) (stun.Setter, bool) {
 	switch i {
+	case 6:
+		return stun.NewShortTermIntegrity("menu"), true
 	case 0:
 		return stun.NewUsername("user"), true
 	case 1:
@@ -280,8 +284,15 @@ func c09Build(k c09Case) (string, string, string) {
 	base := []stun.Setter{stun.BindingRequest, stun.NewTransactionIDSetter([12]byte{7})}
 	setters = append(setters, base...)
 	prefix = append(prefix, base...)
+	fpSeen := false
 	for pos, idx := range k.Build {
 		s, ok := c09Menu(idx)
+		if idx == 6 && fpSeen {
+			ok = false // integrity after FINGERPRINT is refused
+		}
+		if idx == 5 {
+			fpSeen = true
+		}
 		setters = append(setters, s)
 		if failAt < 0 {
 			if ok {
@@ -304,10 +315,11 @@ func c09Build(k c09Case) (string, string, string) {
 	} else {
 		_, _ = c09Menu(k.Build[failAt])
 		wantOverflow := k.Build[failAt] == 1
+		wantOrder := k.Build[failAt] == 6
 		if err == nil {
 			return "", "build-swallows-error", fmt.Sprintf("Build%v returned nil although setter %d fails", k.Build, failAt)
 		}
-		if wantOverflow && !stun.IsAttrSizeOverflow(err) || !wantOverflow && !errors.Is(err, errC09Menu) {
+		if wantOverflow && !stun.IsAttrSizeOverflow(err) || wantOrder && !errors.Is(err, stun.ErrFingerprintBeforeIntegrity) || !wantOverflow && !wantOrder && !errors.Is(err, errC09Menu) {
 			return "", "build-wrong-error", fmt.Sprintf("Build%v returned %v, want the error of the first failing setter (position %d)", k.Build, err, failAt)
 		}
 	}
@@ -341,7 +353,7 @@ func init() {
 					c.Sample(k)
 				}
 			}
-			for pre := 0; pre < 14; pre++ {
+			for pre := 0; pre < 15; pre++ {
 				for _, ts := range []struct {
 					name string
 					max  int
@@ -412,16 +424,16 @@ func init() {
 				}
 				// Build with every list of <= 3 setters from the 6-element menu
 				do(c09Case{Setter: "Build", Pre: pre, Build: []int{}})
-				for a := 0; a < 6; a++ {
+				for a := 0; a < 7; a++ {
 					do(c09Case{Setter: "Build", Pre: pre, Build: []int{a}})
-					for b := 0; b < 6; b++ {
+					for b := 0; b < 7; b++ {
 						do(c09Case{Setter: "Build", Pre: pre, Build: []int{a, b}})
-						for d := 0; d < 6; d++ {
+						for d := 0; d < 7; d++ {
 							do(c09Case{Setter: "Build", Pre: pre, Build: []int{a, b, d}})
 							if c.Thorough() {
-								for e := 0; e < 6; e++ {
+								for e := 0; e < 7; e++ {
 									do(c09Case{Setter: "Build", Pre: pre, Build: []int{a, b, d, e}})
-									for f := 0; f < 6; f++ {
+									for f := 0; f < 7; f++ {
 										do(c09Case{Setter: "Build", Pre: pre, Build: []int{a, b, d, e, f}})
 									}
 								}
